@@ -116,39 +116,16 @@ theorem mu_import (w : World) (path : List String) (cur url : String) (loc : Lis
 /-- `u` is a units of file `cur` -/
 def InFile (w : World) (cur : String) (u : UnitsE) : Prop := ∃ us cs, w.lookup cur = some (.model us cs) ∧ u ∈ us
 
-theorem fetchUnits_ne_fuel : ∀ (n : Nat) (w : World) (path : List String) (cur : String) (loc old : List (String × String)) (u : UnitsE),
-    mu w path cur (loc ++ old) < n → InFile w cur u → fetchUnits n w path cur loc old u ≠ .fuel := by
+theorem fetchUnits_ne_fuel : ∀ (n : Nat) (w : World) (path : List String) (cur : String) (u : UnitsE),
+    mu w path cur [] < n → fetchUnits n w path cur u ≠ .fuel := by
   intro n
   induction n with
-  | zero => intro w path cur loc old u h; omega
+  | zero => intro w path cur u h; omega
   | succ n ih =>
-    intro w path cur loc old u hmu hin
+    intro w path cur u hmu
     unfold fetchUnits
     cases himp : u.imp with
-    | none =>
-      simp only []
-      split
-      · simp
-      · rename_i hloc
-        split
-        · simp
-        · rename_i hold
-          obtain ⟨us, cs, hlk, hu⟩ := hin
-          rw [hlk]
-          simp only []
-          apply allR_ne_fuel
-          intro k _
-          cases hf : findU us k with
-          | none => simp
-          | some ku =>
-            simp only []
-            have hnot : (loc ++ old).contains (cur, u.name) = false := by
-              have h1 : ¬ (cur, u.name) ∈ loc := by simpa using hloc
-              have h2 : ¬ (cur, u.name) ∈ old := by simpa using hold
-              have : ¬ (cur, u.name) ∈ loc ++ old := by simp [h1, h2]
-              simpa using this
-            have hdec := mu_local w path cur (loc ++ old) (cur, u.name) (pair_mem hlk hu) hnot
-            exact ih w path cur _ old ku (by rw [List.cons_append]; omega) ⟨us, cs, hlk, findU_mem hf⟩
+    | none => simp
     | some ur =>
       obtain ⟨url, ref⟩ := ur
       simp only []
@@ -163,13 +140,13 @@ theorem fetchUnits_ne_fuel : ∀ (n : Nat) (w : World) (path : List String) (cur
           split
           · simp
           · rename_i hpath
-            have hdec := mu_import w path cur url (loc ++ old) (lookup_file hlk) (by simpa using hpath)
+            have hdec := mu_import w path cur url [] (lookup_file hlk) (by simpa using hpath)
             cases hf : findU us' ref with
             | none => simp
             | some su =>
               simp only []
               apply seqR_ne_fuel
-              · exact ih w _ url [] (loc ++ old) su (by rw [List.nil_append]; omega) ⟨us', cs', hlk, findU_mem hf⟩
+              · exact ih w _ url su (by omega)
               · apply allR_ne_fuel
                 intro k _
                 cases hk : findU us' k with
@@ -177,7 +154,7 @@ theorem fetchUnits_ne_fuel : ∀ (n : Nat) (w : World) (path : List String) (cur
                 | some ku =>
                   simp only []
                   split
-                  · exact ih w _ url [] (loc ++ old) ku (by rw [List.nil_append]; omega) ⟨us', cs', hlk, findU_mem hk⟩
+                  · exact ih w _ url ku (by omega)
                   · simp
 
 /-! Components: the encapsulation hierarchy of a file is a tree (C09 proves that the mutators keep it acyclic); here it
@@ -281,7 +258,7 @@ theorem fetchComponent_ne_fuel (w : World) (h : String × String → Nat) (H : N
                       simp only []
                       have h1 := mu_nil_le w (path ++ [cur]) url
                       have h2 : muF w (path ++ [cur]) url ≤ muF w (path ++ [cur]) url * (H + 1) := Nat.le_mul_of_pos_right _ (by omega)
-                      exact fetchUnits_ne_fuel n w _ url [] [] uu (by rw [List.append_nil]; omega) ⟨us', cs', hlk', findU_mem hu⟩
+                      exact fetchUnits_ne_fuel n w _ url uu (by omega)
 
 theorem muF_le (w : World) (cur : String) : muF w [] cur ≤ 2 * w.length + 1 := by
   unfold muF
